@@ -123,6 +123,10 @@ template <class T> struct cname { static std::string get() { return pretty<T>();
 #define MON_CNAME(T, S) namespace mon { template <> struct cname<T> { static std::string get() { return S; } }; }
 }  // namespace mon
 
+// echo helpers for injected functions (C11 / C18): log exactly what arrived
+inline int mon_echo_str(const std::string &s) { mon::out() << "ECHO kind=str value=" << mon::hex(s) << "\n"; return (int)s.size(); }
+inline double mon_echo_num(double v) { char b[64]; snprintf(b, 64, "%.17g", v); mon::out() << "ECHO kind=num value=" << b << "\n"; return v; }
+
 // ---- stand-in TTree: logs booking, reads rows THROUGH the bound addresses at Fill()
 class TTree {
 public:
